@@ -127,6 +127,11 @@ def build(rng, tree, n_tables, opts):
         if fill < 0.2 and size_ - off >= 21:
             items.append({"free": True, "size": size_ - off, "offset": off})  # trailing free entry up to the exact end of the table (as in real files)
             off = size_
+        elif 0.3 <= fill < 0.4 and items and not items[-1].get("free") and size_ - off > 21:
+            short = rng.randrange(1, 21)  # fewer bytes than an entry header remain after the last entry: nothing more can be stored there
+            items[-1]["slack"] += size_ - off - short
+            items[-1]["size"] += size_ - off - short
+            off = size_ - short
         elif fill < 0.3 and items and not items[-1].get("free"):
             items[-1]["slack"] += size_ - off  # last entry's slack reaches the exact end: the table is full, no terminator
             items[-1]["size"] += size_ - off
